@@ -35,6 +35,9 @@ def check(scn, H, view=None):
             k = st['k']
             v.stats['instants'] += 1
             held = st['held']
+            if held is None:
+                v.stats['lock_state_unknown'] += 1
+                continue
             # (a) equation of motion
             if not held:
                 ref = T[k] / v.J_eq
